@@ -273,7 +273,7 @@ func modelExprs(s spec, fx fixes) []string {
 	if len(methods) == 0 {
 		methods = fiveMethods
 		if fx.method {
-			methods = []string{"[A-Za-z]+"}
+			methods = []string{"[A-Z]+"}
 		}
 	}
 	out := []string{}
@@ -315,15 +315,47 @@ func predicate(id string, s spec, q request) bool {
 	return false
 }
 
-// attribute finds the smallest set of repairs under which the expression behaves as
-// required (want) on q; every repair in it must be a listed finding whose structural
+// present tells which repairs the implementation already contains: the smallest set of
+// repairs under which the model emits exactly the registered expressions (none today;
+// falls back to none when the implementation is not any of the modelled variants).
+func present(s spec, own []string) fixes {
+	uniq := []string{}
+	seen := map[string]bool{}
+	for _, e := range own {
+		if !seen[e] {
+			seen[e] = true
+			uniq = append(uniq, e)
+		}
+	}
+	for _, fx := range fixSubsets {
+		if strings.Join(modelExprs(s, fx), "\n") == strings.Join(uniq, "\n") {
+			return fx
+		}
+	}
+	return fixes{}
+}
+
+func (f fixes) or(g fixes) fixes {
+	return fixes{f.meta || g.meta, f.pname || g.pname, f.method || g.method, f.slash || g.slash}
+}
+
+func (f fixes) overlaps(g fixes) bool {
+	return f.meta && g.meta || f.pname && g.pname || f.method && g.method || f.slash && g.slash
+}
+
+// attribute: the deviation on q is attributed only if (a) the model of the translation
+// as it stands (with the repairs the implementation already contains) shows the same
+// deviation on q, i.e. the implementation agrees with the defect model on this case,
+// (b) some set of further repairs makes the model behave as required (want), and
+// (c) every repair of the smallest such set is a listed finding whose structural
 // predicate holds for the case.
-func attribute(r *ev.Recorder, s spec, q request, want, modelled bool, c func() any) (ids []string, explained []string, ok bool) {
-	if !modelled {
-		return nil, nil, false // the implementation no longer behaves like the defect model
+func attribute(r *ev.Recorder, s spec, own []string, q request, want bool, c func() any) (ids []string, explained []string, ok bool) {
+	have := present(s, own)
+	if search(modelExprs(s, have), q.Method, q.URL) == want {
+		return nil, nil, false // the implementation is not the modelled one here
 	}
 	for _, fx := range fixSubsets[1:] {
-		if search(modelExprs(s, fx), q.Method, q.URL) != want {
+		if fx.overlaps(have) || search(modelExprs(s, have.or(fx)), q.Method, q.URL) != want {
 			continue
 		}
 		if explained == nil {
@@ -378,9 +410,9 @@ func hasSpecial(url string) string {
 
 // judge decides one (subject, request) pair given the engine's verdict.
 //
-//	own      expressions registered for the subject itself
+//	own      expressions registered for the subject itself (ownAll: it registered manage-all)
 //	others   everything else registered in the same configuration (incl. manage-all)
-func judge(r *ev.Recorder, kind string, all []spec, s spec, q request, engine bool, own []string, othersMatch, modelled bool) *caseRepr {
+func judge(r *ev.Recorder, kind string, all []spec, s spec, q request, engine bool, own []string, ownAll, othersMatch bool) *caseRepr {
 	mk := func(note string) *caseRepr {
 		return &caseRepr{Kind: kind, Configured: all, Subject: s, Request: q, Registered: own, Note: note}
 	}
@@ -400,6 +432,10 @@ func judge(r *ev.Recorder, kind string, all []spec, s spec, q request, engine bo
 	} else {
 		r.Class("engine match, plain pattern")
 	}
+	if ownAll {
+		r.Class("registered: manage-all")
+		return nil
+	}
 	if search(own, q.Method, q.URL) {
 		r.Class("registered: own expression matches")
 		return nil
@@ -408,7 +444,7 @@ func judge(r *ev.Recorder, kind string, all []spec, s spec, q request, engine bo
 		r.Class("registered: only by another entry of the configuration")
 		return nil
 	}
-	ids, explained, ok := attribute(r, s, q, true, modelled, func() any { return mk("engine matches, no registered expression does") })
+	ids, explained, ok := attribute(r, s, own, q, true, func() any { return mk("engine matches, no registered expression does") })
 	if ok {
 		for _, id := range ids {
 			r.Class("bypass attributed to " + id)
@@ -417,13 +453,13 @@ func judge(r *ev.Recorder, kind string, all []spec, s spec, q request, engine bo
 	}
 	note := fmt.Sprintf("the engine matches %s %s to %q but none of the registered expressions %q does: the transaction bypasses the engine", q.Method, q.URL, s.URL, own)
 	if explained != nil {
-		note += fmt.Sprintf(" [repairing %v makes it match; not listed as known]", explained)
+		note += fmt.Sprintf(" [repairing %v would make it match, but that is not a listed finding whose predicate holds here]", explained)
 	}
 	return mk(note)
 }
 
 // literally checks (L) for a URL u that matches s with the given mask of literal positions.
-func literally(r *ev.Recorder, kind string, all []spec, s spec, m, u string, mask []bool, at int, own []string, modelled bool) *caseRepr {
+func literally(r *ev.Recorder, kind string, all []spec, s spec, m, u string, mask []bool, at int, own []string) *caseRepr {
 	lit := []int{}
 	for i, b := range mask {
 		if b {
@@ -450,7 +486,7 @@ func literally(r *ev.Recorder, kind string, all []spec, s spec, m, u string, mas
 	mk := func(note string) *caseRepr {
 		return &caseRepr{Kind: kind, Configured: all, Subject: s, Request: q, Registered: own, Note: note}
 	}
-	ids, explained, ok := attribute(r, s, q, false, modelled, func() any {
+	ids, explained, ok := attribute(r, s, own, q, false, func() any {
 		return mk(fmt.Sprintf("differs from the matching URL %q in the literal character at offset %d and is still matched", u, i))
 	})
 	if ok {
@@ -461,7 +497,7 @@ func literally(r *ev.Recorder, kind string, all []spec, s spec, m, u string, mas
 	}
 	note := fmt.Sprintf("%q registered for %q also matches %s %s, which differs from %s in the literal character at offset %d: literal characters are not matched literally", own, s.URL, m, mut, u, i)
 	if explained != nil {
-		note += fmt.Sprintf(" [repairing %v stops it; not listed as known]", explained)
+		note += fmt.Sprintf(" [repairing %v would stop it, but that is not a listed finding whose predicate holds here]", explained)
 	}
 	return mk(note)
 }
@@ -513,7 +549,7 @@ func genSegment() *rapid.Generator[string] {
 
 func genURLPattern() *rapid.Generator[string] {
 	return rapid.Custom(func(t *rapid.T) string {
-		if rapid.IntRange(0, 49).Draw(t, "any") == 0 {
+		if rapid.IntRange(0, 119).Draw(t, "any") == 0 {
 			return rapid.SampledFrom([]string{"*", ".*"}).Draw(t, "anyurl")
 		}
 		url := rapid.SampledFrom(genHosts).Draw(t, "host")
@@ -662,13 +698,12 @@ func TestFlowFilterRegistered(t *testing.T) {
 		}
 		r.Class(fmt.Sprintf("filters=%d", len(kept)))
 		own := make([][]string, len(kept))
-		modelled := make([]bool, len(kept))
+		ownAll := make([]bool, len(kept))
 		manageAll := false
 		for i, f := range flows {
-			var all bool
-			own[i], all = registeredForFilter(f.filter)
-			manageAll = manageAll || all
-			if modelled[i] = implIsModelled(kept[i], own[i]); !modelled[i] {
+			own[i], ownAll[i] = registeredForFilter(f.filter)
+			manageAll = manageAll || ownAll[i]
+			if !implIsModelled(kept[i], own[i]) {
 				r.Class("translation differs from the modelled one")
 			}
 		}
@@ -689,13 +724,13 @@ func TestFlowFilterRegistered(t *testing.T) {
 						others = true
 					}
 				}
-				if fail := judge(r, "flow", kept, s, d.q, selected[s.Name], own[i], others, modelled[i]); fail != nil {
+				if fail := judge(r, "flow", kept, s, d.q, selected[s.Name], own[i], ownAll[i], others); fail != nil {
 					t.Fatalf("%s", r.Fail(fail, "%s", fail.Note))
 				}
 			}
 			if d.mask != nil && selected[kept[d.from].Name] && !manageAll {
 				s := kept[d.from]
-				if fail := literally(r, "flow", kept, s, d.q.Method, d.q.URL, d.mask, d.at, own[d.from], modelled[d.from]); fail != nil {
+				if fail := literally(r, "flow", kept, s, d.q.Method, d.q.URL, d.mask, d.at, own[d.from]); fail != nil {
 					t.Fatalf("%s", r.Fail(fail, "%s", fail.Note))
 				}
 			}
@@ -819,15 +854,14 @@ func TestPolicyEndpointRegistered(t *testing.T) {
 					rest = append(rest, e)
 				}
 			}
-			modelled := implIsModelled(s, []string{ownExpr})
-			if !modelled {
+			if !implIsModelled(s, []string{ownExpr}) {
 				r.Class("translation differs from the modelled one")
 			}
-			if fail := judge(r, "policy", specs, s, d.q, true, own, reg.ManageAll || search(rest, d.q.Method, d.q.URL), modelled); fail != nil {
+			if fail := judge(r, "policy", specs, s, d.q, true, own, false, reg.ManageAll || search(rest, d.q.Method, d.q.URL)); fail != nil {
 				t.Fatalf("%s", r.Fail(fail, "%s", fail.Note))
 			}
 			if d.mask != nil && applied == d.from && !reg.ManageAll {
-				if fail := literally(r, "policy", specs, s, d.q.Method, d.q.URL, d.mask, d.at, own, modelled); fail != nil {
+				if fail := literally(r, "policy", specs, s, d.q.Method, d.q.URL, d.mask, d.at, own); fail != nil {
 					t.Fatalf("%s", r.Fail(fail, "%s", fail.Note))
 				}
 			}
@@ -871,7 +905,7 @@ func TestDocumentedShapes(t *testing.T) {
 					if !engine {
 						t.Fatalf("%s", r.Fail(caseRepr{Kind: "flow", Subject: s, Request: request{m, u}}, "the engine does not match %s %s to %q", m, u, s.URL))
 					}
-					if fail := judge(r, "flow", []spec{s}, s, request{m, u}, engine, own, false, true); fail != nil {
+					if fail := judge(r, "flow", []spec{s}, s, request{m, u}, engine, own, false, false); fail != nil {
 						t.Fatalf("%s", r.Fail(fail, "%s", fail.Note))
 					}
 				}
